@@ -21,7 +21,7 @@ ITEM_LIMIT = {"quick": 900, "thorough": 3600}
 
 X, T, U = Space({"x": 1}), Space({"t": 1}), Space({"u": 1})
 MENU = ["pinn_static4", "pinn_grid3", "pinn_static5", "periodic_static", "periodic_grid", "periodic_empty_static", "integro", "hpm",
-        "ritz_static", "pinn_dom_t", "pinn_dom_k", "pinn_shared_prod", "pinn_shared_alone", "pinn_defaults"]
+        "ritz_static", "pinn_dom_t", "pinn_dom_k", "pinn_shared_prod", "pinn_shared_alone", "pinn_defaults", "don_a", "don_b"]
 
 
 class World:
@@ -46,6 +46,20 @@ class World:
         self.data = {"f": self.f}                 # ONE dict object handed to every condition
         self.data_tx = {"g": self.g}
         self.seen = {}                            # condition name -> list of recorded residual arguments
+        self._don = None
+
+    def deeponet(self):
+        if self._don is None:
+            from torchphysics.models.deeponet.branchnets import FCBranchNet
+            from torchphysics.models.deeponet.trunknets import FCTrunkNet
+            from torchphysics.models.deeponet.deeponet import DeepONet
+            from torchphysics.problem.spaces import FunctionSpace
+            torch.manual_seed(4)
+            fs = FunctionSpace(tp.domains.Interval(T, 0, 1), Space({"e": 1}))
+            ds = tp.samplers.GridSampler(fs.input_domain, 3).make_static()
+            net = DeepONet(FCTrunkNet(X, hidden=(3,)), FCBranchNet(fs, discretization_sampler=ds, hidden=(3,)), output_space=U, output_neurons=2)
+            self._don = (net, fs)
+        return self._don
 
     def make(self, kind):
         S, Cn = tp.samplers, tp.conditions
@@ -81,6 +95,18 @@ class World:
                 rec.append({"f": f.detach().clone(), "h": h.detach().clone(), "k": torch.as_tensor(float(k))})
                 return u - 0.1 * f + 0.01 * h - 0.001 * k
             return Cn.PINNCondition(self.model_x, S.GridSampler(self.dom_x, 3), res_k, data_functions=self.data_k, name=kind)
+        if kind in ("don_a", "don_b"):
+            # two DeepONet conditions that share ONE network but have their own function sets
+            from torchphysics.problem.domains import CustomFunctionSet
+            net, fs = self.deeponet()
+            k0 = 0.2 if kind == "don_a" else 0.9
+            fset = CustomFunctionSet(fs, S.GridSampler(tp.domains.Interval(Space({"k": 1}), k0, k0 + 0.5), 2).make_static(),
+                                     lambda k, t: torch.sin(3 * k * t) + k)
+
+            def res_don(u, x):
+                rec.append({"f": x.detach().clone()})
+                return u - 0.3 * x
+            return Cn.PIDeepONetCondition(net, fset, S.GridSampler(self.dom_x, 3).make_static(), res_don, name=kind)
         if kind == "periodic_empty_static":
             return Cn.PeriodicCondition(self.model_t, self.dom_t, res_per_t, non_periodic_sampler=S.PointSampler.empty(),
                                         data_functions=self.data_t, name=kind)
